@@ -271,9 +271,13 @@ func (e *Engine) computeFootprint(key string) *footprint {
 						case *ssa.IndexAddr:
 							// element of a slice value or of a local array: no heap
 						case *ssa.Alloc:
-							if _, isArr := ptrElem(a.Type()).Underlying().(*types.Array); !isArr {
-								addDeref(ptrElem(a.Type()))
+							// a local variable of the function itself: allocated during the call, not part of
+							// the state the result depends on
+						case *ssa.FreeVar:
+							if f == fn {
+								addDeref(ptrElem(a.Type())) // a captured variable of an enclosing function: caller-visible
 							}
+							// (a closure made inside fn captures fn's own locals: not part of the pre-state)
 						case *ssa.Global:
 							addDeref(ptrElem(a.Type()))
 						default:
@@ -462,6 +466,24 @@ func (fp *footprint) describe() string {
 func (e *Engine) resolveFuncKey(name, pkg string) *FuncContract {
 	if ct := e.specs.Funcs[pkg+"."+name]; ct != nil {
 		return ct
+	}
+	// T.M and pkg.T.M stand for the method M of T (value, pointer or interface receiver)
+	if i := strings.LastIndex(name, "."); i > 0 && !strings.Contains(name, "(") {
+		tn, mn := name[:i], name[i+1:]
+		pk := pkg
+		if j := strings.LastIndex(tn, "."); j > 0 {
+			for _, p := range e.byName[tn[:j]] {
+				if strings.HasPrefix(p.PkgPath, "github.com/google/badwolf") {
+					pk = p.PkgPath
+				}
+			}
+			tn = tn[j+1:]
+		}
+		for _, k := range []string{pk + ".(" + tn + ")." + mn, pk + ".(*" + tn + ")." + mn} {
+			if ct := e.specs.Funcs[k]; ct != nil {
+				return ct
+			}
+		}
 	}
 	if ct := e.specs.Funcs[name]; ct != nil {
 		return ct
